@@ -319,7 +319,13 @@ class Network:
         :return: a list of the introduced addresses (ip, port)
         """
         introductions = self.reverse_intro_lookup.get(peer, None)
-        if introductions is None:
+        if introductions is not None:
+            # Drop cached addresses that were removed or handed to another introducer in the meantime.
+            key_material = peer.public_key.key_to_bin()
+            introductions[:] = [address for address in introductions
+                                if address in self._all_addresses
+                                and self._all_addresses[address].introduced_by == key_material]
+        else:
             with self.graph_lock:
                 introductions = [k for k, v in self._all_addresses.items()
                                  if v.introduced_by == peer.public_key.key_to_bin()]
